@@ -26,3 +26,11 @@ Theorem c19_source_left_intact : forall e, known_env e -> e_owning e = false ->
   exists c, nth_error (mexec e m ops) i = Some c /\ iv_total (dropped_all (c_trace c)) = 0.
 Proof. exact family_leaves_source_intact. Qed.
 Print Assumptions c19_source_left_intact.
+
+(** every kind of reference-yielding iterator, with no hypothesis on the run *)
+From OCI.proofs Require Import Borrowed.
+Theorem c19_borrowed_source_untouched : forall e, e_owning e = false -> forall progs sched,
+  dropped_all (c_trace (exec e (init progs) sched)) = [] /\
+  forall t f, dropped_all (c_trace (final_step e (exec e (init progs) sched) t f)) = [].
+Proof. exact borrowed_source_untouched. Qed.
+Print Assumptions c19_borrowed_source_untouched.
